@@ -56,6 +56,7 @@ GReregC == \E k \in {1, 2} :
            ELSE IF c.mevH # c.mevT THEN [acct |-> c.acct, mh |-> c.mevT, mt |-> c.mevH]
            ELSE [acct |-> c.acct, mh |-> ~c.mevH, mt |-> ~c.mevT] IN
   /\ c.home /\ c.acct = 1
+  /\ (VarMode = "small" => cur[N] = CurOf(BaseRow))      \* quick tier: only in front of the plain background
   /\ Rereg(1, n.acct, n.mh, n.mt) /\ H("Rereg", [v |-> 1, acct |-> n.acct, mevH |-> n.mh, mevT |-> n.mt])
 GResnap == Resnap /\ H("Resnap", [w |-> 0])
 
